@@ -142,6 +142,12 @@ Fixpoint node_tval (ty : tty) (n : node) : option tval :=
 
 Definition is_empty_map (v : tval) : bool := match v with TVM [] => true | _ => false end.
 
+(* Convention for AssignNode arguments of the typed engines: a basicnode container ([NMap], [NList])
+   is a node of ANOTHER implementation (the assembler ranges over it); a container of the other
+   constructors ([NFMap], [NFList]) stands for a node of the SAME engine and type (the run hands the
+   generated code only its own nodes in that form): the same-type shortcut copies it. *)
+Definition same_impl (n : node) : bool := match n with NFMap _ | NFList _ => true | _ => false end.
+
 (* a position holding a value of type ty: the root builder, a map value, a list element *)
 Definition pos_op (e : engine) (q : tquirks) (ty : tty) (stk : list tframe) (s : tstate) (o : aop) : toutcome :=
   match o with
@@ -152,7 +158,8 @@ Definition pos_op (e : engine) (q : tquirks) (ty : tty) (stk : list tframe) (s :
     | Some v =>
       match ty, e with
       | TyM _, EGen =>
-        if tq_gen_map_node_panics q && negb (is_empty_map v) then TPanic else tdeliver stk v
+        if tq_gen_map_node_panics q && negb (is_empty_map v) && negb (same_impl n) then TPanic
+        else tdeliver stk v
       | _, _ => tdeliver stk v
       end
     | None => if kind_eqb (kind_of n) want then TNoMethod else TErr TEWrong s
